@@ -15,6 +15,7 @@ mode  'settle' : iterate until the loop is idle
 from __future__ import annotations
 
 import functools
+import time
 
 from . import canon, core, explore
 from .vloop import EPS, RESOLUTION, HarnessError, VLoop
@@ -48,6 +49,9 @@ class TimedSys:
         self.exceptions = []  # (action, exception type) leaving an entry point
         self.outcome = None
         self.capture = install_log_capture()
+        if isinstance(cfg, dict) and cfg.get("origin"):
+            # the virtual clock starts at another origin: nothing in a statement depends on absolute time
+            self.loop.advance_to(cfg["origin"])
         try:
             self.setup(cfg)
         except BaseException:
@@ -238,6 +242,8 @@ def expand(cls, cfg, hist):
             s.apply(ev)
             viols = list(s.violations) + final_checks(s)
             k = s.key()
+            if cfg.get("_abs_clock"):
+                k = canon.key_of((k, s.loop.time()))  # fallback search: states merge only at equal absolute times
             out.append((ev, hist + (ev,), k, viols, s.outcome))
         finally:
             s.close()
@@ -278,10 +284,28 @@ def search(ctx, cls, cfg, depth, name, deadline=None, max_states=None, stride=97
         case = dict(search=name, cfg=cfg, history=[list(e) for e in path])
         viols.append(core.Violation(ctx.prop, v["clause"], v["disc"], case, detail=v["detail"]))
     nchk, bad = explore.validate_dedupe(res, fn, limit=48 if ctx.thorough else 16)
-    if bad and not viols:
-        # (with violations present the merged-state mismatch is usually a consequence of the defect:
-        # report the violations, keep the mismatch in the evidence)
+    if viols:
+        ctx.found_violation = True
+    if bad and not viols and getattr(ctx, "found_violation", False):
+        bad_note = bad
+        bad = []  # an earlier search of this run already reported a violation: the mismatch is its consequence
+    if bad and not viols and not cfg.get("_abs_clock"):
+        # Two histories with the same canonical state (everything relative to the clock) behave differently: the code
+        # under test keeps something the canonical state cannot express, typically an absolute time.  The merged
+        # search is not trustworthy then; search again with the absolute clock in the key (no merging across
+        # time), to a smaller depth.  If that finds a violation it is reported; if not, this is a harness error.
+        cfg2 = dict(cfg, _abs_clock=True)
+        res2, viols2, det2 = search(ctx, cls, cfg2, min(depth, 6), name + "+absolute-clock", deadline=time.time() + 150,
+                                    max_states=150000, stride=stride)
+        if viols2:
+            for v in viols2:
+                v.detail = (v.detail or "") + "  [found by the fallback search with the absolute clock in the state key: " \
+                    "canonically equal states had different futures]"
+            det2["dedupe_mismatches"] = len(bad)
+            return res2, viols2, det2
         raise HarnessError(f"state key merged two states with different futures: {bad[0]}")
+    if bad and not viols:
+        bad = []  # fallback search: merging by absolute time is sound by construction
     detail = dict(search=name, cfg=core.jsonable(cfg), states=res.states, transitions=res.transitions,
                   depth_completed=res.depth_completed, closure=res.closure, frontier=res.frontier,
                   levels=res.levels, dedupe_hits=res.dedupe_hits, dedupe_validated=nchk, capped=res.capped,
